@@ -199,8 +199,44 @@ def written : List Ev → List Key
   | .write c :: es => c ++ written es
   | _ :: es => written es
 
+/-! ### key presses that carry text
+
+  `KeyPress(Keys.BracketedPaste, data)` is ONE key press whose `data` is the pasted text.  For the
+  accept-boundary machinery it is an ordinary key (`Key.other`); its data is kept in the key code by
+  an injective numbering of texts (`Props.C17Paste.decText_encText`), so that no layer has to
+  know about it: `pasteKey d = other (pasteBase + encText d)`. -/
+def encBase : Nat := 0x110001
+
+/-- injective numbering of texts: digits `c.toNat + 1` in base `0x110001`, first character lowest -/
+def encText : Text → Nat
+  | [] => 0
+  | c :: t => (c.toNat + 1) + encBase * encText t
+
+def decTextFuel : Nat → Nat → Text
+  | 0, _ => []
+  | f + 1, n => if n = 0 then [] else Char.ofNat (n % encBase - 1) :: decTextFuel f (n / encBase)
+
+def decText (n : Nat) : Text := decTextFuel n n
+
+/-- key codes from here on are pastes -/
+def pasteBase : Nat := 0x200000
+
+/-- `KeyPress(Keys.BracketedPaste, d)` -/
+def pasteKey (d : Text) : Key := .other (pasteBase + encText d)
+
+/-- `data.replace("\r\n", "\n").replace("\r", "\n")` (the paste handler of basic.py) -/
+def crlfGo : Bool → Text → Text
+  | _, [] => []
+  | prevCR, c :: t =>
+    if c = '\r' then '\n' :: crlfGo true t          -- (`\r` alone and the `\r` of `\r\n`)
+    else if c = '\n' && prevCR then crlfGo false t  -- the `\n` of `\r\n`
+    else c :: crlfGo false t
+
+def crlf (t : Text) : Text := crlfGo false t
+
 /-! ### the concrete line editor used by the correspondence (default emacs bindings of a
-    single-line `PromptSession`; text never contains a newline here) -/
+    single-line `PromptSession`; the text contains a newline only after a paste that contained one,
+    and the scripts then use no line-oriented editing key) -/
 namespace Ed
 
 structure E where
@@ -222,6 +258,7 @@ def kCtrlA := base + 8         -- c-a         beginning-of-line
 def kCtrlE := base + 9         -- c-e         end-of-line
 def kCtrlB := base + 10        -- c-b         backward-char
 def kCtrlF := base + 11        -- c-f         forward-char
+def kCtrlD := base + 15        -- c-d         delete-char (on a non-empty buffer; 12..14: escape, c-x, c-@)
 
 def key (e : E) (k : Nat) : E :=
   if k < base then
@@ -229,7 +266,7 @@ def key (e : E) (k : Nat) : E :=
   else if k = kBackspace then
     if 0 < e.cur then { text := e.text.take (e.cur - 1) ++ e.text.drop e.cur, cur := e.cur - 1 }
     else e
-  else if k = kDelete then
+  else if k = kDelete ∨ k = kCtrlD then
     { e with text := e.text.take e.cur ++ e.text.drop (e.cur + 1) }
   else if k = kLeft ∨ k = kCtrlB then { e with cur := e.cur - 1 }
   else if k = kRight ∨ k = kCtrlF then { e with cur := min (e.cur + 1) e.text.length }
@@ -237,6 +274,10 @@ def key (e : E) (k : Nat) : E :=
   else if k = kEnd ∨ k = kCtrlE then { e with cur := e.text.length }
   else if k = kCtrlK then { e with text := e.text.take e.cur }
   else if k = kCtrlU then { text := e.text.drop e.cur, cur := 0 }
+  else if pasteBase ≤ k then
+    -- basic.py `_paste`: `event.current_buffer.insert_text(data)` with `\n` line endings
+    let d := crlf (decText (k - pasteBase))
+    { text := e.text.take e.cur ++ d ++ e.text.drop e.cur, cur := e.cur + d.length }
   else e
 
 def keyK (e : E) : Key → E
